@@ -20,6 +20,7 @@ import (
 	"path/filepath"
 	"strconv"
 	"strings"
+	"sync"
 	"syscall"
 	"time"
 
@@ -40,6 +41,7 @@ func init() {
 	}
 	generators["C18"] = genC18
 	executors["int-text"] = execIntText
+	executors["int-concurrent"] = execIntConcurrent
 	executors["int-json"] = execIntJSON
 	executors["int-xml"] = execIntXML
 	executors["int-bin"] = execIntBin
@@ -56,7 +58,56 @@ func execIntText(o Op) string {
 	if err != nil {
 		return "err"
 	}
-	return "ok " + string(t)
+	// the text belongs to the caller: producing the text of other numbers afterwards does not
+	// change it
+	first := string(t)
+	for _, y := range []*big.Int{new(big.Int).Add(x, bi(1)), new(big.Int).Lsh(bi(7), 300), bi(0)} {
+		if _, err := y.MarshalText(); err != nil {
+			return "err"
+		}
+	}
+	if string(t) != first {
+		return "text-changed-afterwards"
+	}
+	return "ok " + first
+}
+
+// int-concurrent: many goroutines serialise and read back different numbers (as concurrent sessions
+// do with their messages): every number comes back as itself
+func execIntConcurrent(o Op) string {
+	xs := unhxs(o["xs"])
+	rounds := o.int("rounds")
+	var mu sync.Mutex
+	bad := 0
+	var wg sync.WaitGroup
+	for gi := 0; gi < o.int("goroutines"); gi++ {
+		wg.Add(1)
+		go func(gi int) {
+			defer wg.Done()
+			for r := 0; r < rounds; r++ {
+				x := xs[(gi*13+r)%len(xs)]
+				type msg struct {
+					A *big.Int `json:"a"`
+					B *big.Int `json:"b"`
+				}
+				bts, err := json.Marshal(msg{x, new(big.Int).Add(x, bi(int64(gi)))})
+				var back msg
+				if err == nil {
+					err = json.Unmarshal(bts, &back)
+				}
+				if err != nil || back.A == nil || back.A.Cmp(x) != 0 || back.B == nil || back.B.Cmp(new(big.Int).Add(x, bi(int64(gi)))) != 0 {
+					mu.Lock()
+					bad++
+					mu.Unlock()
+				}
+			}
+		}(gi)
+	}
+	wg.Wait()
+	if bad > 0 {
+		return fmt.Sprintf("corrupted %d", bad)
+	}
+	return "ok"
 }
 
 func sameWord(a, b *big.Int) string {
@@ -733,7 +784,7 @@ func execFilemode(o Op) string {
 
 // ---------------------------------------------------------------- generator
 
-func hxu(u uint64) any   { return new(gobig.Int).SetUint64(u).Text(16) }
+func hxu(u uint64) any      { return new(gobig.Int).SetUint64(u).Text(16) }
 func strp(s string) *string { return &s }
 
 func boundaryInts(g *Rng, thorough bool) []*big.Int {
@@ -763,6 +814,17 @@ func boundaryInts(g *Rng, thorough bool) []*big.Int {
 }
 
 func genInts(g *Rng, thorough bool, emit func(Op)) {
+	{
+		var xs []*big.Int
+		for i := 0; i < 64; i++ {
+			xs = append(xs, g.bits(8+g.intn(2100)))
+		}
+		rounds := 2000
+		if thorough {
+			rounds = 40000
+		}
+		emit(Op{"op": "int-concurrent", "class": "int-concurrent", "label": "ok", "nomodel": true, "xs": hxs(xs), "rounds": rounds, "goroutines": 32})
+	}
 	for _, x := range boundaryInts(g, thorough) {
 		for _, neg := range []bool{false, true} {
 			v, cls, lt, lrt := x, "nonneg", "ok", "same"
